@@ -302,3 +302,54 @@ Proof.
   - rewrite Hl, Hz2. qring.
   - rewrite Hs, H2, Hz. qring.
 Qed.
+
+(* ------------------------------------------------------------ the values ComputeValues accumulates *)
+
+(* one posting's effect on the values map *)
+Definition values_step (c : calc) (m : vals) (p : posting) : vals :=
+  if ca_com c (p_com p) && is_portfolio c (p_acc p) then vals_add m (p_com p) (p_val p) else m.
+
+Definition day_postings (d : day) : list posting := flat_map t_postings (d_txns d).
+
+Lemma cv_txns_values c ts : forall s,
+  cv_values (fold_left (pure_txn None (Some (cv_posting c))) ts s) =
+  fold_left (values_step c) (flat_map t_postings ts) (cv_values s).
+Proof.
+  induction ts as [|t ts IH]; intros s; cbn [fold_left flat_map]; [reflexivity|].
+  rewrite IH, fold_left_app. f_equal. unfold pure_txn, opt_app. generalize (t_postings t). intros ps. revert s.
+  induction ps as [|p ps IHp]; intros s; cbn [fold_left]; [reflexivity|]. rewrite IHp. f_equal.
+  unfold cv_posting, values_step. destruct (ca_com c (p_com p)); cbn [negb andb]; [|reflexivity].
+  destruct (is_portfolio c (p_acc p)); reflexivity.
+Qed.
+
+Lemma cv_day_values c s d :
+  cv_values (pure_day (Some cv_day_start) None (Some (cv_posting c)) (Some cv_day_end) s d) =
+  fold_left (values_step c) (day_postings d) (cv_values s).
+Proof. unfold pure_day, opt_app, cv_day_end. cbn [cv_values]. rewrite cv_txns_values. reflexivity. Qed.
+
+Lemma cv_run_values c days : forall s,
+  cv_values (cv_run c s days) = fold_left (values_step c) (flat_map day_postings days) (cv_values s).
+Proof.
+  unfold cv_run, pure_days. induction days as [|d days IH]; intros s; cbn [fold_left flat_map]; [reflexivity|].
+  rewrite IH, cv_day_values, fold_left_app. reflexivity.
+Qed.
+
+(* the record ComputeValues emits for a day: V1 is the map of the decimals accumulated (with
+   Amounts.Add, entries that become zero deleted) over the bookings of all days up to and
+   including it that are on portfolio accounts and in commodities passing the filter *)
+Lemma cv_record c pre d post :
+  exists v0, nth_error (cv_out (cv_run c cv_init (pre ++ d :: post))) (length pre) =
+             Some (d_date d, (v0, vals_pcv (fold_left (values_step c) (flat_map day_postings (pre ++ [d])) []))).
+Proof.
+  unfold cv_run, pure_days. rewrite fold_left_app. cbn [fold_left].
+  fold (pure_days (Some cv_day_start) None (Some (cv_posting c)) (Some cv_day_end) cv_init pre).
+  fold (cv_run c cv_init pre). set (s := cv_run c cv_init pre).
+  destruct (cv_records_chain c post (pure_day (Some cv_day_start) None (Some (cv_posting c)) (Some cv_day_end) s d)) as [tail [Ht _]].
+  unfold cv_run, pure_days in Ht. rewrite Ht, cv_day_out.
+  assert (Hlen : length (cv_out s) = length pre).
+  { pose proof (cv_out_dates c pre cv_init) as H. apply (f_equal (@length Z)) in H.
+    rewrite app_length, !map_length in H. cbn in H. exact H. }
+  exists (cv_prev s). rewrite <- app_assoc, nth_error_app2 by lia. rewrite Hlen, Nat.sub_diag. cbn [app nth_error].
+  do 4 f_equal. rewrite cv_txns_values. cbn [cv_day_start cv_values]. subst s. rewrite cv_run_values.
+  rewrite flat_map_app, fold_left_app. cbn [flat_map]. rewrite app_nil_r. reflexivity.
+Qed.
